@@ -13,7 +13,8 @@ Sane(j) == ~j.bad /\ ~j.damage
 InB(j) == \A a \in OBJ : j.obj[a].inb         \* every index below size addressed live storage (API-level probe)
 F1(q) == [x \in 1..Len(q) |-> q[x]]
 NoReadA == {<<"asize", 1>>, <<"ainit", 1>>}
-StrayAborts(f, pos) == <<f, pos>> \notin NoReadA
+\* pos 3: the same stray copy passed in both argument positions
+StrayAborts(f, pos) == IF pos = 3 THEN <<f, 1>> \notin NoReadA \/ <<f, 2>> \notin NoReadA ELSE <<f, pos>> \notin NoReadA
 StepOK(rec) ==
     IF ~Sane(rec.pre) THEN FALSE
     ELSE IF rec.op = "stray" THEN rec.out = (IF StrayAborts(rec.f, rec.pos) THEN "abort" ELSE "ok")
